@@ -478,9 +478,28 @@ func (c *Ctx) boundsOK(b *ssa.BasicBlock, x, idx ssa.Value, slack int64, pc *cor
 		return true, "unreachable block"
 	}
 	minLen, exactLens := knownLen(x)
+	var same []ssa.Value
+	var idxOver ssa.Value
+	if _, isSlice := x.Type().Underlying().(*types.Slice); isSlice {
+		same = c.lenFacts().sameLen(x, b, pc)
+		idxOver = c.lenFacts().rangeIndexOver(idx, b, pc)
+	}
 	for _, term := range dnf {
 		d := core.NewDiffSys()
 		d.Add("0", lenTerm, 0) // len >= 0
+		for _, v := range same {
+			t := "len(" + core.Canon(v) + ")"
+			if t != lenTerm {
+				d.Add(lenTerm, t, 0)
+				d.Add(t, lenTerm, 0)
+			}
+		}
+		if idxOver != nil {
+			t := "len(" + core.Canon(idxOver) + ")"
+			it0, io0 := core.Linear(core.Strip(idx))
+			d.Add("0", it0, io0)   // 0 <= idx
+			d.Add(it0, t, -1-io0) // idx <= len(X) - 1
+		}
 		if arr, ok := derefArray(x.Type()); ok {
 			d.Add(lenTerm, "0", arr.Len())
 			d.Add("0", lenTerm, -arr.Len())
@@ -520,11 +539,73 @@ func (c *Ctx) boundsOK(b *ssa.BasicBlock, x, idx ssa.Value, slack int64, pc *cor
 			}
 		} else if len(skipLower) > 0 && skipLower[0] {
 			// lower bound justified by the caller
-		} else if !d.Implies("0", it, io) && !nonNegByConstruction(idx) {
+		} else if !d.Implies("0", it, io) && !nonNegByConstruction(idx) && !c.counterFieldLoad(idx) {
 			return false, ""
 		}
 	}
 	return true, "index proved within bounds from the path condition"
+}
+
+// counterFieldLoad: idx is read from an integer struct field that starts at zero and is only
+// ever written by `field = field + k` (k >= 0) or a non-negative constant, and whose address is
+// never handed out: the value read is never negative.
+func (c *Ctx) counterFieldLoad(idx ssa.Value) bool {
+	ld, ok := core.Strip(idx).(*ssa.UnOp)
+	if !ok || ld.Op != token.MUL {
+		return false
+	}
+	f := core.FieldOf(ld.X)
+	if f == nil {
+		return false
+	}
+	if c.counterFields == nil {
+		c.counterFields = map[*types.Var]bool{}
+	}
+	if v, ok := c.counterFields[f]; ok {
+		return v
+	}
+	good := true
+	for _, g := range c.P.ModuleFunctions() {
+		for _, b := range g.Blocks {
+			for _, in := range b.Instrs {
+				fa, ok := in.(*ssa.FieldAddr)
+				if !ok || core.FieldOf(fa) != f || fa.Referrers() == nil {
+					continue
+				}
+				for _, r := range *fa.Referrers() {
+					switch x := r.(type) {
+					case *ssa.DebugRef:
+					case *ssa.UnOp:
+						if x.Op != token.MUL {
+							good = false
+						}
+					case *ssa.Store:
+						if x.Addr != ssa.Value(fa) {
+							good = false
+							continue
+						}
+						if k, ok := core.ConstInt(x.Val); ok && k >= 0 {
+							continue
+						}
+						bo, ok := x.Val.(*ssa.BinOp)
+						if !ok || bo.Op != token.ADD {
+							good = false
+							continue
+						}
+						k, isK := core.ConstInt(bo.Y)
+						l2, isLd := bo.X.(*ssa.UnOp)
+						if !isK || k < 0 || !isLd || core.FieldOf(l2.X) != f {
+							good = false
+						}
+					default:
+						good = false
+					}
+				}
+			}
+		}
+	}
+	c.counterFields[f] = good
+	return good
 }
 
 func (c *Ctx) leq(b *ssa.BasicBlock, lo, hi ssa.Value, pc *core.PathConds) bool {
